@@ -100,7 +100,7 @@ def main():
                 "quick_cmd": f"bin/check {pid} quick",
                 "thorough_cmd": f"bin/check {pid} thorough",
                 "evidence_file": f"/verif/evidence/{pid}.json",
-                "replay_cmd_template": "mc/../target/release/vmc replay {path}",
+                "replay_cmd_template": "/verif/target/release/vmc replay {path}",
                 "engine": engine,
                 "level_claimed": {"category": "model_checking", "text": text, "design_ref": ref},
                 "level_note": note,
